@@ -56,6 +56,7 @@ def run_shard(task):
             try:
                 try:
                     info = sub.check(case) or {}
+                    common.global_invariants()
                 except PropertyViolation:
                     raise
                 except Exception as e:
